@@ -21,6 +21,7 @@ RULE = (
     "order, times 0,1,2,..., displacement and documented cell data per frame. family 'save': tools.save round trip "
     "(displacements, reaction forces, optional Cauchy stresses). Non-trivial: >= 2 frames with different displacements "
     "/ meshes with >= 2 cells."
+    ' Every cell block of a multi-block file is also read by its index (cellblock=0, 1, ...).'
 )
 ASSUMPTIONS = [
     "meshio is the reader used for the oracle; XDMF cannot store VTK_LAGRANGE cells (meshio KeyError): excluded and counted",
